@@ -116,7 +116,13 @@ pub fn run_check(prop: &PropDef, tier: Tier) -> i32 {
                 continue;
             }
         }
-        let st = explore::explore(&part.cfg, &part.run);
+        // engine-internal wall cap (a capped part reports exhaustive=false; it is never a verdict)
+        let mut cfg = part.cfg.clone();
+        let default_cap = std::time::Duration::from_secs(tier.pick(150, 1500));
+        if cfg.wall_cap > default_cap {
+            cfg.wall_cap = default_cap;
+        }
+        let st = explore::explore(&cfg, &part.run);
         eprintln!(
             "[{}] part {}: {} executions, {} evaluations, {} states, {} transitions, {} distinct digests, {} outcomes, {:.1}s{}",
             prop.id,
